@@ -718,6 +718,12 @@ module Z =
   | Zpos p0 -> Npos p0
   | _ -> N0
 
+  (** val of_nat : nat -> z **)
+
+  let of_nat = function
+  | O -> Z0
+  | S n1 -> Zpos (Coq_Pos.of_succ_nat n1)
+
   (** val of_N : n -> z **)
 
   let of_N = function
@@ -1014,7 +1020,7 @@ let int_unmarshal =
 (** val uint_unmarshal : z -> z option **)
 
 let uint_unmarshal =
-  int_chk
+  uint_chk
 
 (** val power_reduction : z **)
 
@@ -3869,3 +3875,265 @@ let init_chain s0 gvals dao_tokens =
       | Some s3 -> Some (s3, ups)
       | None -> Some (s2, ups))
    | None -> None)
+
+(** val uvarint_enc : nat -> z -> bytes **)
+
+let rec uvarint_enc fuel z0 =
+  match fuel with
+  | O -> []
+  | S f ->
+    if Z.ltb z0 (Zpos (XO (XO (XO (XO (XO (XO (XO XH))))))))
+    then (Z.to_N z0) :: []
+    else (Z.to_N
+           (Z.add (Z.modulo z0 (Zpos (XO (XO (XO (XO (XO (XO (XO XH)))))))))
+             (Zpos (XO (XO (XO (XO (XO (XO (XO XH)))))))))) :: (uvarint_enc f
+                                                                 (Z.div z0
+                                                                   (Zpos (XO
+                                                                   (XO (XO
+                                                                   (XO (XO
+                                                                   (XO (XO
+                                                                   XH))))))))))
+
+(** val uvarint : z -> bytes **)
+
+let uvarint z0 =
+  uvarint_enc (S (S (S (S (S (S (S (S (S (S O)))))))))) z0
+
+(** val uvarint_dec : nat -> bytes -> z -> z -> z -> (z * bytes) option **)
+
+let rec uvarint_dec fuel b i sh acc =
+  match fuel with
+  | O -> None
+  | S f ->
+    (match b with
+     | [] -> None
+     | x :: r ->
+       if N.ltb x (Npos (XO (XO (XO (XO (XO (XO (XO XH))))))))
+       then if (&&) (Z.eqb i (Zpos (XI (XO (XO XH))))) (N.ltb (Npos XH) x)
+            then None
+            else Some
+                   ((Z.add acc (Z.mul (Z.of_N x) (Z.pow (Zpos (XO XH)) sh))),
+                   r)
+       else uvarint_dec f r (Z.add i (Zpos XH))
+              (Z.add sh (Zpos (XI (XI XH))))
+              (Z.add acc
+                (Z.mul
+                  (Z.sub (Z.of_N x) (Zpos (XO (XO (XO (XO (XO (XO (XO
+                    XH))))))))) (Z.pow (Zpos (XO XH)) sh))))
+
+(** val uvarint_decode : bytes -> (z * bytes) option **)
+
+let uvarint_decode b =
+  uvarint_dec (S (S (S (S (S (S (S (S (S (S O)))))))))) b Z0 Z0 Z0
+
+(** val frame : bytes -> bytes **)
+
+let frame bare =
+  app (uvarint (Z.of_nat (length bare))) bare
+
+(** val unframe : bytes -> (bytes * bytes) option **)
+
+let unframe b =
+  match uvarint_decode b with
+  | Some p0 ->
+    let (n0, r) = p0 in
+    if Z.ltb (Z.of_nat (length r)) n0
+    then None
+    else Some ((firstn (Z.to_nat n0) r), (skipn (Z.to_nat n0) r))
+  | None -> None
+
+(** val digits : nat -> z -> bytes **)
+
+let rec digits w z0 =
+  match w with
+  | O -> []
+  | S w' ->
+    app (digits w' (Z.div z0 (Zpos (XO (XI (XO XH))))))
+      ((Z.to_N
+         (Z.add (Zpos (XO (XO (XO (XO (XI XH))))))
+           (Z.modulo z0 (Zpos (XO (XI (XO XH))))))) :: [])
+
+type tfields = { t_year : z; t_month : z; t_day : z; t_hour : z; t_min : 
+                 z; t_sec : z; t_nano : z }
+
+(** val time_text : tfields -> bytes **)
+
+let time_text t =
+  app (digits (S (S (S (S O)))) t.t_year)
+    (app ((Npos (XI (XO (XI (XI (XO XH)))))) :: [])
+      (app (digits (S (S O)) t.t_month)
+        (app ((Npos (XI (XO (XI (XI (XO XH)))))) :: [])
+          (app (digits (S (S O)) t.t_day)
+            (app ((Npos (XO (XO (XI (XO (XI (XO XH))))))) :: [])
+              (app (digits (S (S O)) t.t_hour)
+                (app ((Npos (XO (XI (XO (XI (XI XH)))))) :: [])
+                  (app (digits (S (S O)) t.t_min)
+                    (app ((Npos (XO (XI (XO (XI (XI XH)))))) :: [])
+                      (app (digits (S (S O)) t.t_sec)
+                        (app ((Npos (XO (XI (XI (XI (XO XH)))))) :: [])
+                          (digits (S (S (S (S (S (S (S (S (S O)))))))))
+                            t.t_nano))))))))))))
+
+type json =
+| JNull
+| JBool of bool
+| JStr of bytes
+| JArr of json list
+| JObj of (bytes * json) list
+
+(** val canon : json -> json **)
+
+let rec canon j = match j with
+| JArr l -> JArr (map canon l)
+| JObj l ->
+  JObj
+    (let rec go l0 acc =
+       match l0 with
+       | [] -> acc
+       | p0 :: r -> let (k, v) = p0 in go r (aset acc k (canon v))
+     in go l [])
+| _ -> j
+
+(** val hexd : z -> n **)
+
+let hexd z0 =
+  Z.to_N
+    (if Z.ltb z0 (Zpos (XO (XI (XO XH))))
+     then Z.add (Zpos (XO (XO (XO (XO (XI XH)))))) z0
+     else Z.add (Zpos (XI (XI (XI (XO (XI (XO XH))))))) z0)
+
+(** val esc : n -> bytes **)
+
+let esc b =
+  if N.eqb b (Npos (XO (XI (XO (XO (XO XH))))))
+  then (Npos (XO (XO (XI (XI (XI (XO XH))))))) :: ((Npos (XO (XI (XO (XO (XO
+         XH)))))) :: [])
+  else if N.eqb b (Npos (XO (XO (XI (XI (XI (XO XH)))))))
+       then (Npos (XO (XO (XI (XI (XI (XO XH))))))) :: ((Npos (XO (XO (XI (XI
+              (XI (XO XH))))))) :: [])
+       else if N.eqb b (Npos (XO (XI (XO XH))))
+            then (Npos (XO (XO (XI (XI (XI (XO XH))))))) :: ((Npos (XO (XI
+                   (XI (XI (XO (XI XH))))))) :: [])
+            else if N.eqb b (Npos (XI (XO (XI XH))))
+                 then (Npos (XO (XO (XI (XI (XI (XO XH))))))) :: ((Npos (XO
+                        (XI (XO (XO (XI (XI XH))))))) :: [])
+                 else if N.eqb b (Npos (XI (XO (XO XH))))
+                      then (Npos (XO (XO (XI (XI (XI (XO XH))))))) :: ((Npos
+                             (XO (XO (XI (XO (XI (XI XH))))))) :: [])
+                      else if N.eqb b (Npos (XO (XO (XO XH))))
+                           then (Npos (XO (XO (XI (XI (XI (XO
+                                  XH))))))) :: ((Npos (XO (XI (XO (XO (XO (XI
+                                  XH))))))) :: [])
+                           else if N.eqb b (Npos (XO (XO (XI XH))))
+                                then (Npos (XO (XO (XI (XI (XI (XO
+                                       XH))))))) :: ((Npos (XO (XI (XI (XO
+                                       (XO (XI XH))))))) :: [])
+                                else if (||)
+                                          ((||)
+                                            ((||)
+                                              (N.ltb b (Npos (XO (XO (XO (XO
+                                                (XO XH)))))))
+                                              (N.eqb b (Npos (XO (XO (XI (XI
+                                                (XI XH))))))))
+                                            (N.eqb b (Npos (XO (XI (XI (XI
+                                              (XI XH))))))))
+                                          (N.eqb b (Npos (XO (XI (XI (XO (XO
+                                            XH)))))))
+                                     then (Npos (XO (XO (XI (XI (XI (XO
+                                            XH))))))) :: ((Npos (XI (XO (XI
+                                            (XO (XI (XI XH))))))) :: ((Npos
+                                            (XO (XO (XO (XO (XI
+                                            XH)))))) :: ((Npos (XO (XO (XO
+                                            (XO (XI
+                                            XH)))))) :: ((hexd
+                                                           (Z.div (Z.of_N b)
+                                                             (Zpos (XO (XO
+                                                             (XO (XO XH))))))) :: (
+                                            (hexd
+                                              (Z.modulo (Z.of_N b) (Zpos (XO
+                                                (XO (XO (XO XH))))))) :: [])))))
+                                     else b :: []
+
+(** val quote : bytes -> bytes **)
+
+let quote s =
+  (Npos (XO (XI (XO (XO (XO
+    XH)))))) :: (app (flat_map esc s) ((Npos (XO (XI (XO (XO (XO
+                  XH)))))) :: []))
+
+(** val render : json -> bytes **)
+
+let rec render = function
+| JNull ->
+  (Npos (XO (XI (XI (XI (XO (XI XH))))))) :: ((Npos (XI (XO (XI (XO (XI (XI
+    XH))))))) :: ((Npos (XO (XO (XI (XI (XO (XI XH))))))) :: ((Npos (XO (XO
+    (XI (XI (XO (XI XH))))))) :: [])))
+| JBool b ->
+  if b
+  then (Npos (XO (XO (XI (XO (XI (XI XH))))))) :: ((Npos (XO (XI (XO (XO (XI
+         (XI XH))))))) :: ((Npos (XI (XO (XI (XO (XI (XI XH))))))) :: ((Npos
+         (XI (XO (XI (XO (XO (XI XH))))))) :: [])))
+  else (Npos (XO (XI (XI (XO (XO (XI XH))))))) :: ((Npos (XI (XO (XO (XO (XO
+         (XI XH))))))) :: ((Npos (XO (XO (XI (XI (XO (XI XH))))))) :: ((Npos
+         (XI (XI (XO (XO (XI (XI XH))))))) :: ((Npos (XI (XO (XI (XO (XO (XI
+         XH))))))) :: []))))
+| JStr s -> quote s
+| JArr l ->
+  (Npos (XI (XI (XO (XI (XI (XO
+    XH))))))) :: (let rec elems = function
+                  | [] -> (Npos (XI (XO (XI (XI (XI (XO XH))))))) :: []
+                  | x :: r ->
+                    app (render x)
+                      (match r with
+                       | [] -> (Npos (XI (XO (XI (XI (XI (XO XH))))))) :: []
+                       | _ :: _ ->
+                         (Npos (XO (XO (XI (XI (XO XH)))))) :: (elems r))
+                  in elems l)
+| JObj l ->
+  (Npos (XI (XI (XO (XI (XI (XI
+    XH))))))) :: (let rec fields = function
+                  | [] -> (Npos (XI (XO (XI (XI (XI (XI XH))))))) :: []
+                  | p0 :: r ->
+                    let (k, v) = p0 in
+                    app (quote k) ((Npos (XO (XI (XO (XI (XI
+                      XH)))))) :: (app (render v)
+                                    (match r with
+                                     | [] ->
+                                       (Npos (XI (XO (XI (XI (XI (XI
+                                         XH))))))) :: []
+                                     | _ :: _ ->
+                                       (Npos (XO (XO (XI (XI (XO
+                                         XH)))))) :: (fields r))))
+                  in fields l)
+
+(** val sort_json : json -> bytes **)
+
+let sort_json j =
+  render (canon j)
+
+(** val sign_doc : bytes -> bytes -> bytes -> json -> json -> json **)
+
+let sign_doc chain entropy memo fee msg0 =
+  JObj ((((Npos (XI (XI (XO (XO (XO (XI XH))))))) :: ((Npos (XO (XO (XO (XI
+    (XO (XI XH))))))) :: ((Npos (XI (XO (XO (XO (XO (XI XH))))))) :: ((Npos
+    (XI (XO (XO (XI (XO (XI XH))))))) :: ((Npos (XO (XI (XI (XI (XO (XI
+    XH))))))) :: ((Npos (XI (XI (XI (XI (XI (XO XH))))))) :: ((Npos (XI (XO
+    (XO (XI (XO (XI XH))))))) :: ((Npos (XO (XO (XI (XO (XO (XI
+    XH))))))) :: [])))))))), (JStr chain)) :: ((((Npos (XI (XO (XI (XO (XO
+    (XI XH))))))) :: ((Npos (XO (XI (XI (XI (XO (XI XH))))))) :: ((Npos (XO
+    (XO (XI (XO (XI (XI XH))))))) :: ((Npos (XO (XI (XO (XO (XI (XI
+    XH))))))) :: ((Npos (XI (XI (XI (XI (XO (XI XH))))))) :: ((Npos (XO (XO
+    (XO (XO (XI (XI XH))))))) :: ((Npos (XI (XO (XO (XI (XI (XI
+    XH))))))) :: []))))))), (JStr entropy)) :: ((((Npos (XO (XI (XI (XO (XO
+    (XI XH))))))) :: ((Npos (XI (XO (XI (XO (XO (XI XH))))))) :: ((Npos (XI
+    (XO (XI (XO (XO (XI XH))))))) :: []))), fee) :: ((((Npos (XI (XO (XI (XI
+    (XO (XI XH))))))) :: ((Npos (XI (XO (XI (XO (XO (XI XH))))))) :: ((Npos
+    (XI (XO (XI (XI (XO (XI XH))))))) :: ((Npos (XI (XI (XI (XI (XO (XI
+    XH))))))) :: [])))), (JStr memo)) :: ((((Npos (XI (XO (XI (XI (XO (XI
+    XH))))))) :: ((Npos (XI (XI (XO (XO (XI (XI XH))))))) :: ((Npos (XI (XI
+    (XI (XO (XO (XI XH))))))) :: []))), msg0) :: [])))))
+
+(** val sign_bytes : bytes -> bytes -> bytes -> json -> json -> bytes **)
+
+let sign_bytes chain entropy memo fee msg0 =
+  sort_json (sign_doc chain entropy memo fee msg0)
